@@ -295,3 +295,36 @@ func DirectedAmnesiacPrimary(mons ...vnet.Monitor) *Built {
 	c.Run(nil)
 	return &Built{C: c, Spec: Spec{Profile: cfg.Profile, Idx: -1, Seed: cfg.Seed}}
 }
+
+// DirectedAMEVEarlyCommit: regression scenario of the repaired anti-MEV defect
+// (DESIGN.md §5.14). A garbage Commit of the Byzantine primary reaches
+// validator 3 first; validator 3 then processes the PreBlock on the
+// PreCommits of the others before it has seen M preparations (so before its
+// own PreCommit), and receives the two genuine Commits.
+func DirectedAMEVEarlyCommit(mons ...vnet.Monitor) *Built {
+	c, byz := directedCluster("directed-amev-early-commit", 0, mons)
+	a := c.Adv
+	h := c.Cfg.BaseHeight + 1
+	tip := c.Nodes[1].TipHash()
+	ts := c.Nodes[1].TipTs() + uint64(time.Second)
+	mk := func(t dbft.MessageType, body any) *vnet.Payload {
+		return &vnet.Payload{T: t, Hgt: h, View: 0, Idx: 0, Body: body}
+	}
+	garbage := mk(dbft.CommitType, &vnet.CommitB{Sig: make([]byte, 64)})
+	a.Inject(byz, garbage, []int{3}, "garbage commit before anything else")
+	deliverWhere(c, func(e *vnet.Envelope) bool { return e.P == garbage })
+	p := mk(dbft.PrepareRequestType, &vnet.PrepReq{Ts: ts, Nc: 9, Hashes: []vnet.H{}})
+	a.Inject(byz, p, []int{1, 2, 3}, "proposal")
+	deliverWhere(c, func(e *vnet.Envelope) bool { return e.P == p })
+	// responses circulate among validators 1 and 2 only
+	deliverWhere(c, func(e *vnet.Envelope) bool { return e.P.T == dbft.PrepareResponseType && (e.To == 1 || e.To == 2) })
+	pc := mk(dbft.PreCommitType, &vnet.PreCommitB{D: c.PreBlockFor(p, tip).DataWith(byz.Key)})
+	a.Inject(byz, pc, []int{1, 2, 3}, "valid pre-commit of the primary")
+	deliverWhere(c, func(e *vnet.Envelope) bool { return e.P.T == dbft.PreCommitType && (e.To == 1 || e.To == 2) })
+	// validator 3: three pre-commits (1, 2, primary) before it has M preparations, then the two commits
+	deliverWhere(c, func(e *vnet.Envelope) bool { return e.P.T == dbft.PreCommitType && e.To == 3 })
+	deliverWhere(c, func(e *vnet.Envelope) bool { return e.P.T == dbft.CommitType && e.To == 3 })
+	deliverWhere(c, func(e *vnet.Envelope) bool { return e.To != 0 })
+	finish(c)
+	return &Built{C: c, Spec: Spec{Profile: "directed-amev-early-commit", Idx: -1, Seed: c.Cfg.Seed}}
+}
